@@ -48,6 +48,17 @@ def _coeff(rng, cplx=False):
     return [c, 0]
 
 
+def _oid_pool(rng, lo, hi):
+    """operator-id alphabet: usually small ids, sometimes large ADJACENT ids (distinct as integers, equal under a relative
+    float tolerance) and ids of both signs"""
+    r = rng.random()
+    if r < 0.25:
+        return list(range(1000001, 1000001 + (hi - lo)))
+    if r < 0.35:
+        return list(range(-(2 ** 40) - (hi - lo), -(2 ** 40)))
+    return list(range(lo, hi))
+
+
 def _opics(rng, oids, cplx):
     k = rng.choice([1, 1, 1, 2, 2, 3])
     ops = [rng.choice(oids) for _ in range(k)]          # duplicates and unsorted ids on purpose
@@ -57,7 +68,7 @@ def _opics(rng, oids, cplx):
 def _gen_automaton(rng, L, small):
     nn = rng.randint(2, 5)
     ids = rng.sample(range(-3, 12), nn)
-    oids = rng.sample(range(-2, 7), rng.randint(1, 3))
+    oids = rng.sample(_oid_pool(rng, -2, 7), rng.randint(1, 3))
     cplx = rng.random() < 0.25
     nodes = {i: [i, [], [], rng.choice([0, 0, 1, -1, 2])] for i in ids}
     t0 = ids[0]
@@ -148,7 +159,7 @@ def _gen_tree(rng, depth, oids, cplx, pleaf, qleaf_end, q_of):
 
 def _gen_trees(rng, L, small):
     oid_id = rng.choice([0, 0, 3, -1])
-    oids = sorted(set([oid_id] + rng.sample(range(-2, 6), rng.randint(1, 3))))
+    oids = sorted(set([oid_id] + rng.sample(_oid_pool(rng, -2, 6), rng.randint(1, 3))))
     cplx = rng.random() < 0.25
     charged = rng.random() < 0.5
     trees = []
